@@ -272,6 +272,10 @@ impl Property for C04 {
                     let fault = Fault { at_call: k, at_item, sticky };
                     let cfg = base_cfg(Some(fault));
                     let run = run_drawable(&cfg, &sc.drawable, Path::Draw);
+                    if run.inconclusive {
+                        // an unbounded consumer met an endless stream (see exec.rs): nothing to conclude
+                        continue;
+                    }
                     out.sub_evals += 1;
                     out.calls += run.st.n_calls;
                     out.items += run.st.n_items;
